@@ -780,6 +780,7 @@ def do_verify(options):
     if not repofiles:
         raise NoFiles('No files in repository')
     datfile = os.path.splitext(repofiles[0])[0] + '.dat'
+    recorded = set()
     with open(datfile) as fp:
         for line in fp:
             fn, startpos, endpos, sum = line.rsplit(None, 3)
@@ -787,6 +788,7 @@ def do_verify(options):
             endpos = int(endpos)
             filename = os.path.join(options.repository,
                                     os.path.basename(fn))
+            recorded.add(filename)
             expected_size = endpos - startpos
             log("Verifying %s", filename)
             try:
@@ -809,6 +811,14 @@ def do_verify(options):
                     raise VerificationFail(
                         f"{filename} has checksum {actual_sum}"
                         f"{when_uncompressed} instead of {sum}")
+    # The files a recovery would use must be the recorded ones: an
+    # increment that is not in the .dat file of the full backup found
+    # belongs to a later full backup that is gone.
+    for filename in repofiles:
+        if filename not in recorded:
+            raise VerificationFail(
+                "%s is not recorded in %s (the full backup it belongs to"
+                " is missing)" % (filename, datfile))
 
 
 def get_checksum_and_size_of_gzipped_file(filename, quick):
